@@ -273,6 +273,36 @@ class Gen:
         self.emit(f"addi sp, sp, {frame}", "epilogue-sp")
         self.emit("ret", "ret")
 
+    def readline(self, f):
+        """a function with a frame that reads a line (ecall 8, ReadString) into a buffer whose address it got
+        as its argument, kept in a saved register or computed from a label - not loaded by `la` right before"""
+        r = self.rng
+        self.stats["functions"] += 1
+        self.stats["readline"] = self.stats.get("readline", 0) + 1
+        frame = r.choice([16, 32])
+        sv = r.choice(["s0", "s1", "s4"])
+        self.emit(f"{f.name}:", None, indent=False)
+        self.emit(f"addi sp, sp, -{frame}", "prologue-sp")
+        self.emit(f"sw ra, {frame - 4}(sp)", "save")
+        self.emit(f"sw {sv}, {frame - 8}(sp)", "save")
+        if f.nargs >= 1:
+            self.emit(f"mv {sv}, a0", "copy-arg")
+        else:
+            self.emit(f"la {sv}, rl_buf", "li-temp")
+            self.emit(f"addi {sv}, {sv}, 4", "arith")
+        for i in range(1, f.nargs):
+            self.emit(f"add {sv}, {sv}, a{i}", "arith")              # every argument is read
+        self.emit(f"mv a0, {sv}", "arg-setup")
+        self.emit(f"li a1, {r.choice([8, 16])}", "arg-setup")
+        self.emit("li a7, 8", "li-a7")
+        self.emit("ecall", "ecall")
+        self.emit(f"lbu a0, 0({sv})", "set-result")
+        self.emit(f"lw {sv}, {frame - 8}(sp)", "restore")
+        self.emit(f"lw ra, {frame - 4}(sp)", "restore")
+        self.emit(f"addi sp, sp, {frame}", "epilogue-sp")
+        self.emit("ret", "ret")
+        self.need_rl_buf = True
+
     def preloop(self, f):
         """default result before a scan loop; the loop sets a0 only on its 'found' exit"""
         r = self.rng
@@ -412,6 +442,8 @@ class Gen:
             return self.framepointer(f)
         if 0.58 <= k < 0.64:
             return self.bytebuf(f)
+        if 0.64 <= k < 0.69:
+            return self.readline(f)
         if 0.40 <= k < 0.50 and f.nargs >= 1:
             return self.outloop(f)
         if k < 0.32 and f.nargs == 2:
@@ -450,6 +482,9 @@ class Gen:
         for k, f in enumerate(fns):
             # a function may call the functions after it (no cycles) or itself
             self.any_function(f, fns[k + 1:])
+        if getattr(self, "need_rl_buf", False):
+            self.emit(".data", None, indent=False)
+            self.emit("rl_buf: .space 32", None, indent=False)
         return self.lines
 
 
